@@ -4,6 +4,8 @@ import Mathlib.Data.List.Perm.Basic
 import Mathlib.Data.List.Perm.Subperm
 import Mathlib.Data.List.Induction
 import Mathlib.Order.Basic
+import Mathlib.Data.Nat.Basic
+import Mathlib.Data.List.Nodup
 /-! Helper lemmas for C15 / C08: parallel arrays under a common mask and a common index array. -/
 namespace Data
 variable {α β γ δ τ ν κ υ : Type}
@@ -591,5 +593,47 @@ theorem mem_keptIdx (keep : List Bool) (i : Nat) : i ∈ keptIdx keep ↔ keep[i
 
 theorem keptIdx_nodup (keep : List Bool) : (keptIdx keep).Nodup :=
   (keptIdxFrom_sorted keep 0).imp (fun h => Nat.ne_of_lt h)
+
+/-! ### what `merge` returns -/
+
+/-- sources are `RVData` instances: their three arrays have one length -/
+def WellFormed (svs : List (κ × Survey τ ν)) : Prop :=
+  ∀ p ∈ svs, p.2.rv.length = p.2.t.length ∧ p.2.err.length = p.2.t.length
+
+theorem merge_ok [LinearOrder κ] (le : τ → τ → Bool) (svs : List (κ × Survey τ ν)) (nOffsets : Nat)
+    (perm : List Nat) (m : Merged κ τ ν) (h : merge le svs nOffsets perm = .ok m) :
+    (∀ p ∈ svs, p.2.hasCov = false) ∧ (uniq (catIds svs)).length = nOffsets + 1 ∧
+    validPerm le (catT svs) perm = true ∧ m.t = gather perm (catT svs) ∧ m.rv = gather perm (catRv svs) ∧
+    m.err = gather perm (catErr svs) ∧ m.ids = gather perm (catIds svs) ∧ m.t.head? = some m.tref := by
+  unfold merge at h
+  split at h
+  · cases h
+  · rename_i h1
+    split at h
+    · cases h
+    · rename_i h2
+      split at h
+      · cases h
+      · rename_i h3
+        split at h
+        · cases h
+        · rename_i m0 r hg
+          injection h with h
+          subst h
+          refine ⟨?_, by simpa using h2, by simpa using h3, hg.symm, rfl, rfl, rfl, rfl⟩
+          intro p hp
+          simp only [List.any_eq_true, not_exists, not_and, Bool.not_eq_true] at h1
+          exact h1 p hp
+
+theorem zip4_proj : ∀ (a : List α) (b : List β) (c : List γ) (d : List δ),
+    b.length = a.length → c.length = a.length → d.length = a.length →
+    (a.zip (b.zip (c.zip d))).map (fun o => (o.1, o.2.2.2)) = a.zip d
+  | [], _, _, _, _, _, _ => by simp
+  | x :: a, [], _, _, h, _, _ => by simp at h
+  | x :: a, y :: b, [], _, _, h, _ => by simp at h
+  | x :: a, y :: b, z :: c, [], _, _, h => by simp at h
+  | x :: a, y :: b, z :: c, w :: d, h1, h2, h3 => by
+    simp only [List.zip_cons_cons, List.map_cons]
+    rw [zip4_proj a b c d (by simpa using h1) (by simpa using h2) (by simpa using h3)]
 
 end Data
